@@ -45,7 +45,8 @@ OBLIGATIONS = [
         outside="Share internals (block/hash validation is scripted as the share's fate), overdue timers firing by time, more than 2 share numbers / 3 servers, other interleavings"),
     chx("fetcher_step", "C03_h", "h_step",
         bounds={"quick": {"NREC": 2, "NSH": 2, "NSV": 2, "KMAX": 2, "LIMIT": 2}, "thorough": {"NREC": 3, "NSH": 3, "NSV": 2, "KMAX": 3, "LIMIT": 2}},
-        cases={"quick": [{"k": k, "nms": m, "limit": l, "_label": "k%dm%dl%d" % (k, m, l)} for k in (1, 2) for m in (0, 1) for l in (1, 2)],
+        cases={"quick": [{"k": k, "nms": m, "limit": l, "s0lo": z, "_label": "k%dm%dl%d%s" % (k, m, l, "a" if z else "b")}
+                         for k in (1, 2) for m in (0, 1) for l in (1, 2) for z in (1, 0)],
                "thorough": [{"k": k, "nms": m, "limit": l, "NREC": 2, "NSH": 3, "_label": "2rec3sh.k%dm%dl%d" % (k, m, l)} for k in (1, 2, 3) for m in (0, 1) for l in (1, 2)]
                            + [{"k": k, "nms": m, "limit": l, "NREC": 3, "NSH": 2, "n": 3, "_label": "3rec2sh.k%dm%dl%d" % (k, m, l)} for k in (1, 2) for m in (0, 1) for l in (1, 2)]
                            + [{"k": 2, "nms": m, "limit": 1, "NREC": 3, "NSH": 3, "n": 3, "_label": "3rec3sh.k2m%dl1" % m} for m in (0, 1)]},
